@@ -1,6 +1,7 @@
 (* Cap.v — the arena never changes size, and a quiescent arena offers exactly what a new one offers (C17 b). *)
 From Coq Require Import Arith ZArith Lia ZifyBool ZifyN ZifyNat.
 From Minimq Require Import Util Bytes Varint Utf8 Props Ser De Reader Arena Core.
+From Minimq Require Import PacketShape.
 From Minimq Require Import ArenaLemmas SerLemmas ArenaOps Inv Lts Quota.
 
 Definition CapInv (s : session) : Prop := lenN (ob_buf (s_ob s)) = cf_tx (s_cfg s).
@@ -66,9 +67,7 @@ Proof.
     unfold queue_control in E. destruct (_ <=? _); [discriminate|]. inversion E; subst. split; reflexivity. }
   destruct p; cbn [handle_packet]; try (split; reflexivity).
   - destruct q; [split; reflexivity| |]; destruct pid; try (split; reflexivity); try apply Hq.
-    destruct (mem_id _ _); [apply Hq|]. destruct (_ <=? _); [apply Hq|].
-    destruct (Hq (set_srv s (s_srv s ++ [n])) (CPubRec n 0) (negb (false || negb (rc_success 0)))) as [H1 H2].
-    rewrite H1, H2. split; reflexivity.
+    q2_split; apply Hq.
   - pose proof (ack_packet_len (s_ob s) pid (inv_ob _ I)) as Hl. destruct (ack_packet _ _) as [o f]. cbn [fst] in Hl.
     destruct f; cbn [negb]; [|split; reflexivity]. destruct (rc_success _); cbn [fst set_rt set_ob s_ob s_cfg]; split; try exact Hl; reflexivity.
   - pose proof (ack_packet_len (s_ob s) pid (inv_ob _ I)) as Hl. destruct (ack_packet _ _) as [o f]. cbn [fst] in Hl. destruct f.
